@@ -169,6 +169,8 @@ func checkC15(c *Ctx, r *Report) {
 	}
 	r.floor("C15.RW", "printing loops over member lists", nLoops, 10)
 	c15Every(c, r)
+	c15ValText(c, r)
+	importRules(c, r, "C07", "C15.STRESC", "string defaults and descriptions are escaped by the string writer (C07.ESC): every escape it emits is one the SDL scanner reads back to the same code point", "C07.ESC")
 	c15Esc(c, r)
 	c15Kinds(c, r)
 	c15Gen(c, r)
@@ -550,14 +552,156 @@ func checkC16(c *Ctx, r *Report) {
 	tableIncrRule(c, r, "C16.INCR", "two definitions of one name inside a single document are then both accepted (the later wins in the name index, both stay in the list), while the same definitions split over two loads are rejected: acceptance depends on how the definitions are partitioned")
 	c16ExtRefs(c, r)
 	c16Defaults(c, r)
+	c16BindName(c, r)
+	c16ExtPure(c, r)
+}
+
+// c16BindName: while scanning, a type name is bound either to a definition the root already holds or to a
+// *Ref placeholder that the reference pass replaces afterwards. It is never bound to a definition of the
+// document being scanned: such a binding exists only for names declared before their use, so the two
+// orders of the same definitions are treated differently (and a re-declared scalar that the loader later
+// drops stays referenced).
+func c16BindName(c *Ctx, r *Report) {
+	r.rule("C16.BINDNAME", "every Type value the type reader produces for a name is the result of a lookup in the root's tables, or a fresh *Ref")
+	rt := c.fn("(*parser).readType")
+	if rt == nil {
+		r.undecided("C16.BINDNAME", "anchor (*parser).readType", 0, "not found")
+		return
+	}
+	okCallee := func(f *ssa.Function) bool {
+		return f != nil && (f.Name() == "GetType" || (f.Name() == "get" && f.Signature.Recv() != nil && c.isNamed(f.Signature.Recv().Type(), "typeList")))
+	}
+	var bad []string
+	n := 0
+	seenCell := map[*ssa.Alloc]bool{}
+	var examine func(fn *ssa.Function, v ssa.Value, depth int)
+	examine = func(fn *ssa.Function, v ssa.Value, depth int) {
+		leaves, _ := phiLeaves(v)
+		for _, lf := range leaves {
+			x := stripIface(lf.val)
+			switch t := x.(type) {
+			case *ssa.Const:
+			case *ssa.Alloc:
+				// a fresh node (Ref, List, NonNull)
+			case *ssa.UnOp:
+				// the result variable spilled to a cell (functions with defer): everything ever stored into it
+				al, isAl := t.X.(*ssa.Alloc)
+				if !isAl || seenCell[al] {
+					if !isAl {
+						bad = append(bad, fmt.Sprintf("%s in %s", shortPath(vpath(x)), fnName(fn)))
+					}
+					continue
+				}
+				seenCell[al] = true
+				for _, ref := range *al.Referrers() {
+					if st, ok := ref.(*ssa.Store); ok && st.Addr == ssa.Value(al) {
+						examine(fn, st.Val, depth)
+					}
+				}
+			case *ssa.Call:
+				cal := t.Call.StaticCallee()
+				switch {
+				case okCallee(cal):
+					n++
+				case cal == rt:
+					// nested type: same rule recursively
+				case cal != nil && c.inPkg(cal) && depth < 2:
+					for _, ret := range returnsOf(cal) {
+						if len(ret.Results) > 0 {
+							examine(cal, ret.Results[0], depth+1)
+						}
+					}
+				default:
+					bad = append(bad, fmt.Sprintf("%s in %s", shortPath(vpath(x)), fnName(fn)))
+				}
+			case *ssa.Extract:
+				if call, ok := t.Tuple.(*ssa.Call); ok && call.Call.StaticCallee() == rt {
+					continue
+				}
+				bad = append(bad, fmt.Sprintf("%s in %s", shortPath(vpath(x)), fnName(fn)))
+			default:
+				bad = append(bad, fmt.Sprintf("%s in %s", shortPath(vpath(x)), fnName(fn)))
+			}
+		}
+	}
+	for _, ret := range returnsOf(rt) {
+		if len(ret.Results) > 0 {
+			examine(rt, ret.Results[0], 0)
+		}
+	}
+	sort.Strings(bad)
+	r.check("C16.BINDNAME", fnName(rt)+": names are bound to root definitions or placeholders only", rt.Pos(), len(bad) == 0,
+		"a type name can be bound to "+strings.Join(bad, "; ")+", which is neither a lookup in the root's tables nor a placeholder: references written after a definition of the same document are bound differently from references written before it")
+	r.floor("C16.BINDNAME", "root lookups feeding the type reader", n, 1)
+}
+
+// c16ExtPure: merging an extension is free of validation. The rules are checked once, on the merged result
+// (C13.WALK); a check made at the moment one extend block is merged sees an intermediate state that
+// depends on the order of the blocks.
+func c16ExtPure(c *Ctx, r *Report) {
+	r.rule("C16.EXTPURE", "no Extend implementation reaches a validation function (Validate, validate*, isSubType)")
+	n := 0
+	for _, fn := range c.allFns {
+		if fn.Name() != "Extend" || fn.Signature.Recv() == nil {
+			continue
+		}
+		n++
+		badFn := ""
+		for g := range c.reachable(fn) {
+			if !c.inPkg(g) || g == fn {
+				continue
+			}
+			nm := g.Name()
+			if nm == "Validate" || strings.HasPrefix(nm, "validate") || nm == "isSubType" {
+				// reachable only through in-package static calls, not through interface dispatch of Type.Extend itself
+				badFn = fnName(g)
+			}
+		}
+		// restrict to static call chains: CHA adds every Type method through the interface; recheck with static edges only
+		if badFn != "" {
+			badFn = ""
+			seen := map[*ssa.Function]bool{}
+			var walk func(f *ssa.Function, d int)
+			walk = func(f *ssa.Function, d int) {
+				if seen[f] || d > 4 {
+					return
+				}
+				seen[f] = true
+				for _, ci := range callsIn(f) {
+					g := ci.Common().StaticCallee()
+					if g == nil || !c.inPkg(g) {
+						continue
+					}
+					nm := g.Name()
+					if nm == "Validate" || strings.HasPrefix(nm, "validate") || nm == "isSubType" {
+						badFn = fnName(g)
+					}
+					walk(g, d+1)
+				}
+			}
+			walk(fn, 0)
+		}
+		r.check("C16.EXTPURE", fmt.Sprintf("%s: merges without validating", fnName(fn)), fn.Pos(), badFn == "",
+			"the merge calls "+badFn+": a rule is checked against the partly merged definition, so `extend type T implements I {}` before `extend type T { f: .. }` is refused while the other order, the inline form and the split loads are accepted")
+	}
+	r.floor("C16.EXTPURE", "Extend implementations", n, 6)
 }
 
 // c16Defaults: the reader completes a directive use with the defaults of the directive's definition only
 // when that definition is already known; what it may fill in is therefore restricted to arguments the
 // use does not mention at all. An argument written with an explicit value - null included - keeps it,
 // so that the arrangement "definition first" and "use first" describe the same schema.
+// dirUseCompletionHook lets another property's rule set look at the same completion sites.
+var dirUseCompletionHook func(fn *ssa.Function, mu *ssa.MapUpdate, ord int, condOnDefault bool)
+
 func c16Defaults(c *Ctx, r *Report) {
-	r.rule("C16.DEFAULTS", "an ArgValue carrying Arg.Default is stored into a directive use's argument map only under a failed lookup (nil entry) of that argument name in the same map")
+	if r.Property == "C16" {
+		r.rule("C16.DEFAULTS", "an ArgValue carrying Arg.Default is stored into a directive use's argument map only under a failed lookup (nil entry) of that argument name in the same map")
+	}
+	c16DefaultsBody(c, r)
+}
+
+func c16DefaultsBody(c *Ctx, r *Report) {
 	n := 0
 	for _, fn := range c.allFns {
 		k := 0
@@ -609,12 +753,29 @@ func c16Defaults(c *Ctx, r *Report) {
 					}
 					return lk != nil && sameVal(lk.X, mu.Map) && sameVal(lk.Index, mu.Key)
 				})
+				// C10: the completion is made for every absent argument, with or without a default
+				condOnDefault := hasGuard(b, func(g guard) bool {
+					v, _, ok := nilCmp(g.cond)
+					if !ok {
+						return false
+					}
+					_, o, f, isF := loadOfField(stripIface(v))
+					return isF && o == "Arg" && f == "Default"
+				})
+				if dirUseCompletionHook != nil {
+					dirUseCompletionHook(fn, mu, k, condOnDefault)
+				}
+				if r.Property != "C16" {
+					continue
+				}
 				r.check("C16.DEFAULTS", fmt.Sprintf("%s: default #%d is filled in only for an argument the use does not mention", fnName(fn), k), mu.Pos(), absent,
 					"the definition's default can replace an argument the use wrote explicitly (e.g. `max: null`): the use means `null` when the directive is defined after it in the same document and the default when the directive was loaded first")
 			}
 		}
 	}
-	r.floor("C16.DEFAULTS", "default completions of directive uses", n, 1)
+	if r.Property == "C16" {
+		r.floor("C16.DEFAULTS", "default completions of directive uses", n, 1)
+	}
 }
 
 // tableIncrRule: the type and directive tables have no duplicate test of their own (unlike the member
@@ -951,4 +1112,60 @@ func (c *Ctx) indentString(v ssa.Value, depth int) bool {
 		return true
 	}
 	return false
+}
+
+// c15ValText: a default value or a directive argument is printed as the value writer renders it. Text
+// concatenated to that rendering (a forced ".0", quotes, a unit) is not part of the value grammar the reader
+// accepts in every case.
+func c15ValText(c *Ctx, r *Report) {
+	r.rule("C15.VALTEXT", "the text returned by valueString reaches the output unmodified: it is never an operand of a string concatenation")
+	vs := c.fn("valueString")
+	if vs == nil {
+		r.undecided("C15.VALTEXT", "anchor valueString", 0, "not found")
+		return
+	}
+	n := 0
+	for _, fn := range c.allFns {
+		k := 0
+		for _, ci := range callsIn(fn) {
+			call, ok := ci.(*ssa.Call)
+			if !ok || call.Call.StaticCallee() != vs {
+				continue
+			}
+			n++
+			k++
+			bad := token.NoPos
+			seen := map[ssa.Value]bool{}
+			var walk func(v ssa.Value, d int)
+			walk = func(v ssa.Value, d int) {
+				if d > 6 || seen[v] || v.Referrers() == nil {
+					return
+				}
+				seen[v] = true
+				for _, ref := range *v.Referrers() {
+					switch t := ref.(type) {
+					case *ssa.BinOp:
+						if t.Op == token.ADD {
+							bad = t.Pos()
+						}
+					case *ssa.Phi:
+						walk(t, d+1)
+					case *ssa.Store:
+						// spilled local: follow the loads of the cell
+						if al, ok := t.Addr.(*ssa.Alloc); ok {
+							for _, r2 := range *al.Referrers() {
+								if u, ok := r2.(*ssa.UnOp); ok {
+									walk(u, d+1)
+								}
+							}
+						}
+					}
+				}
+			}
+			walk(call, 0)
+			r.check("C15.VALTEXT", fmt.Sprintf("%s: value text #%d is printed as rendered", fnName(fn), k), firstPos(bad, call.Pos()), !bad.IsValid(),
+				"the rendered value is extended by string concatenation before it is written: a suffix that suits the plain decimal form (\".0\") turns an exponent form into text the reader rejects (1e+06.0), and the second print differs from the first")
+		}
+	}
+	r.floor("C15.VALTEXT", "uses of the value renderer by the printers", n, 2)
 }
